@@ -158,7 +158,9 @@ def generate(run_seed):
     for _ in range(rng.randint(0, 3)):
         par = rng.choice(dirs)
         if par.count("/") < 2:
-            dirs.append((par + "/" if par else "") + "d%d" % len(dirs))
+            # directory names are free text: blanks, dots and brackets are ordinary characters
+            style = rng.choice(["d%d", "d%d", "d+%d", "d(%d)", "d.%d x", "d[%d]"])
+            dirs.append((par + "/" if par else "") + style % len(dirs))
     files = []
     for i in range(n):
         kind = rng.choice(list(GOOD10) * 3 + list(GOOD11) * 2 + list(BAD))
@@ -168,6 +170,8 @@ def generate(run_seed):
     run = {"tool": tool, "recursive": rng.random() < 0.5, "out": rng.choice(["given", "absent"]),
            # how the caller spells the input directory
            "indir": rng.choice(["plain", "plain", "trailing-slash", "relative", "relative-slash"])}
+    if rng.random() < 0.3:
+        run["inname"] = rng.choice(["in+put", "in(put)", "in.put", "input 1"])
     if tool == "odmlconvert" and rng.random() < 0.35:
         run["chain"] = True      # second tool run: odmltordf over the result of the first
     if tool == "formatconverter":
@@ -230,7 +234,8 @@ def run_case(case):
     tool = run["tool"]
     with seams.installed(streams) as env:
         box = os.path.join(env.sandbox, "box")
-        indir = os.path.join(box, "input")
+        inname = run.get("inname", "input")
+        indir = os.path.join(box, inname)
         cwd = os.path.join(box, "cwd")
         given = os.path.join(box, "given_out")
         for d in (indir, cwd, given):
@@ -243,8 +248,8 @@ def run_case(case):
         old_cwd = os.getcwd()
         os.chdir(cwd)
         indir_arg = {"plain": indir, "trailing-slash": indir + os.sep,
-                     "relative": os.path.join("..", "input"),
-                     "relative-slash": os.path.join("..", "input") + os.sep}[run.get("indir", "plain")]
+                     "relative": os.path.join("..", inname),
+                     "relative-slash": os.path.join("..", inname) + os.sep}[run.get("indir", "plain")]
         counter = {}
         outcome = ("ret", None)
         env.capture.take()
@@ -300,7 +305,8 @@ def run_case(case):
         res.count("refusals", "%s|%s" % (tool, outcome[1] if outcome[0] == "exc" else "returned"))
         vio = None
         # (1) inputs untouched
-        bad_in = [p for p in created + changed + removed if p == "input/" or p.startswith("input/")]
+        bad_in = [p for p in created + changed + removed if p == inname + "/" or
+                  p.startswith(inname + "/")]
         if bad_in:
             vio = ("batch.inputs-untouched", "the input tree changed: %r" % bad_in[:4])
         # (2) writes confined to the output location
@@ -312,7 +318,7 @@ def run_case(case):
                 stray = [p for p in created + changed + removed
                          if not any(p.startswith(pre) for pre in ok_prefix)]
             else:
-                root = "given_out/" if run["out"] == "given" else "input_%s/" % run["target"]
+                root = "given_out/" if run["out"] == "given" else "%s_%s/" % (inname, run["target"])
                 stray = [p for p in created + changed + removed
                          if not (p == root or p.startswith(root))]
             if stray:
